@@ -1,7 +1,9 @@
 (* C13 -- Enter returns a line only if the validator accepts exactly that line.
    Property theorems only. All statements quantify over every validator (a function
-   of the configuration), every editor state and text. The non-terminal path is C18. *)
+   of the configuration), every editor state and text. The non-terminal path (model: Direct.v, shared with
+   C18) has its own three statements at the end. *)
 From RL Require Import UData LineBuffer Keys Editor EditorRun EditorProofs ValidateProofs.
+From RL Require Direct DirectProofs.
 
 (* Enter / C-j / C-m (and an application-bound AcceptLine going through the same command):
    Submit implies the verdict on the current text was Valid, and nothing between the verdict and
@@ -64,6 +66,32 @@ Theorem C13_read_returns_validated :
           /\ (c_has_helper cfg = true -> exists msg, c_validate cfg (buf (e_line s')) = VRValid msg)).
 Proof. exact read_returns_validated. Qed.
 Print Assumptions C13_read_returns_validated.
+
+(* NON-TERMINAL INPUT (readline_direct), for every validator function, segmentation and input stream: only strings the
+   validator accepts are ever returned and nothing panics ... *)
+Theorem C13_direct_only_valid_returned :
+  forall (seg : Ustr.str -> list Ustr.str) (vf : Ustr.str -> Direct.vres) (input : Ustr.str),
+  List.Forall (fun r => match r with Direct.DLine x => vf x = Direct.VValid | Direct.DPanic => False | _ => True end)
+              (Direct.direct_all seg (Some vf) input).
+Proof. intros seg vf input. exact (DirectProofs.direct_validated seg vf (Direct.dlines input) nil). Qed.
+Print Assumptions C13_direct_only_valid_returned.
+
+(* ... a validator error is what the read returns -- an error, never a line -- and the next read starts afresh ... *)
+Theorem C13_direct_error_is_error :
+  forall seg vf acc l t s tn tr,
+  Direct.strip_terminator (acc ++ l) = (s, tn, tr) -> vf (Direct.apply_bs seg s) = Direct.VError ->
+  Direct.direct_go seg (Some vf) acc (l :: t) = Direct.DErr :: Direct.direct_go seg (Some vf) nil t.
+Proof. exact DirectProofs.direct_error. Qed.
+Print Assumptions C13_direct_error_is_error.
+
+(* ... and an Invalid verdict returns nothing: reading goes on with the text kept *)
+Theorem C13_direct_invalid_continues :
+  forall seg vf acc l t s tn tr,
+  Direct.strip_terminator (acc ++ l) = (s, tn, tr) ->
+  vf (Direct.apply_bs seg s) = Direct.VInvalidMsg \/ vf (Direct.apply_bs seg s) = Direct.VInvalid ->
+  Direct.direct_go seg (Some vf) acc (l :: t) = Direct.direct_go seg (Some vf) (Direct.apply_bs seg s) t.
+Proof. exact DirectProofs.direct_invalid. Qed.
+Print Assumptions C13_direct_invalid_continues.
 
 (* non-vacuity: "(a" Enter ")" Enter under the bracket validator returns "(a\n)" *)
 Example C13_example :
